@@ -23,8 +23,9 @@ def k_queue(N=3, shapes=None, max_polls=None, depths=None):
 
     shapes = None if shapes is None else {tuple(x) for x in shapes}
     W = {}
-    acc.ResultsAggregator.append = classmethod(lambda cls, output, result, batch_id=None: W["results"].append(result))
-    acc.get_directory_size_bytes = lambda *a, **k: 0
+    from jade.jobs.results_aggregator import ResultsAggregator  # patched on the class: independent of import style
+
+    ResultsAggregator.append = classmethod(lambda cls, output, result, batch_id=None: W["results"].append(result))
 
     class Pipe:
         def __init__(self, name):
